@@ -29,13 +29,15 @@ def run(ctx):
     if None in (ST, CT, QS, FS):
         ctx.missing("anchors", "start_query_timer / cancel_timer / query_stopped / format_solution")
         return
+    import inline
+    pol = inline.helpers(prog, keep=(ST.path, CT.path, QS.path, FS.path, E.path))
     for nm in ("solutions::solve", "solutions::solve_all"):
         F = prog.one(nm)
         if F is None:
             ctx.missing("R1", nm)
             continue
         ctx.fn(F)
-        ps = Walker(F, max_visits=3).paths()
+        ps = Walker(F, max_visits=3, inline=pol).paths()
         ctx.stats["paths_walked"] += len(ps)
         short = nm.split("::")[-1]
         r1, w1, r3, w3, r4, w4 = True, "", True, "", True, ""
@@ -94,7 +96,7 @@ def run(ctx):
         if F is None:
             continue
         ok, why, n = True, "", 0
-        for p in Walker(F, max_visits=3).paths():
+        for p in Walker(F, max_visits=3, inline=pol).paths():
             ev = p.events
             for i, e in enumerate(ev):
                 if e["k"] == "call" and any(isinstance(a, tuple) and a[0] == "const" and "timed out" in str(a[2]) for a in e["args"]):
@@ -111,26 +113,31 @@ def run(ctx):
     # ---- R2 ---------------------------------------------------------------
     ctx.fn(ST)
     ok, why, n = True, "", 0
-    acc = statics.accesses(ST)
-    from cfg import BodyCfg
-    cfg = BodyCfg(ST)
-    wr = [a for a in acc if a["kind"] == "write"]
-    tstart = [i for i, t in ST.calls() if (t["callee"].get("resolved") or t["callee"]["path"]).endswith("ThreadTimer::start")]
-    ok = bool(wr) and bool(tstart) and all(any(cfg.dom(a["bb"], t) and a["bb"] != t for a in wr) for t in tstart)
-    # the value stored is `false`
-    for p in Walker(ST, max_visits=2).paths():
+    flag = set()
+    for p in Walker(ST, max_visits=2, inline=pol).paths():
+        ev = p.events
+        for i, e in enumerate(ev):
+            if e["k"] != "call" or not e["callee"].endswith("ThreadTimer::start"):
+                continue
+            n += 1
+            # stores into a static before the timer is started, on this path (a helper that stores is walked into)
+            st = [x for x in ev[:i] if x["k"] == "call" and x["callee"].endswith("::store") and x["args"] and
+                  strip(x["args"][0])[0] == "static"]
+            if not st:
+                ok, why = False, "a path starts the timer without resetting the stop flag first"
+            for x in st:
+                flag.add(strip(x["args"][0])[1])
+                if not const_false(x["args"][1]):
+                    ok, why = False, "start_query_timer stores %s into the stop flag" % show(x["args"][1])
         for e in p.calls():
-            if e["callee"].endswith("::store") and not const_false(e["args"][1]):
+            if e["callee"].endswith("::store") and e["args"] and strip(e["args"][0])[0] == "static" and not const_false(e["args"][1]):
                 ok, why = False, "start_query_timer stores %s into the stop flag" % show(e["args"][1])
-            if e["k"] == "write" and False:
-                pass
-    ctx.ob("R2", "reset-before-start", ok, ctx.where(ST), why or "the stop flag is written (false) before ThreadTimer::start")
-    # closure passed to the timer sets the flag
+    ctx.ob("R2", "reset-before-start", ok and n > 0, ctx.where(ST), why or "the stop flag is written (false) before ThreadTimer::start")
+    # the closure / function handed to the timer sets the flag
     cg = CallGraph(prog, crates=["suiron-lib"])
     mw, accs = statics.must_write(prog, cg)
-    cl = [c for c in cg.send_closures]
-    flag = {a["static"] for a in acc if a["kind"] == "write"}
-    ctx.ob("R2", "timer-thunk-sets-flag", bool(cl) and all(flag & mw.get(c, set()) for c in cl), ctx.where(ST),
+    cl = sorted(c for c in cg.send_closures if c in cg.nodes)
+    ctx.ob("R2", "timer-thunk-sets-flag", bool(cl) and bool(flag) and all(flag & mw.get(c, set()) for c in cl), ctx.where(ST),
            "the closure handed to the timer writes the stop flag on every path (%s)" % cl)
     # ---- R5 ---------------------------------------------------------------
     CR = prog.one("knowledge_base::count_rules")
